@@ -1848,7 +1848,7 @@ func (b *c12Breaker) open(c *vf.Ctx, monitor string) bool {
 func init() {
 	register("C12", "exploration", func(c *vf.Ctx) {
 		var brRS, brMJ, brSeq, brSeqMJ c12Breaker
-		c.SetRule("(1) concurrent histories: 4-8 client goroutines issue seeded random Acquire/Release/UpdateSize/UpdateActual/UpdateFreeUsed/getter calls on a real core.ResourceSemaphore (max 1..8, requests 0..max+2), resp. Acquire(blocking|nonblocking)/Release/FindDone/Current/Clear plus metadata state writes on a real core.MaxJobsSemaphore (Limit 1..3, 3..6 core.Metadata objects on disk); every call is recorded at the client boundary with call/return stamps from one atomic counter; each history (<= ~60 calls) is checked with porcupine against the sequential counting model, plus client-side over-limit sum, conservation at quiescence and lost wake-up decided from state (QueueLength()>0 with Available()==max; goroutine parked in sync.Cond.Wait with Current()<Limit and nothing runnable). (2) sequential differential driver: one operation at a time, blocking Acquire in a goroutine until QueueLength() shows it queued (resp. the goroutine dump shows it parked), all getters and the set of returned acquirers compared with a FIFO reference after every operation. (3) request normalisation: random limit settings x random requests (zero, negative adaptive, fractional, float32-rounded, tiny, at/over limit, huge) through LocalJobManager.GetSystemReqs / RemoteJobManager.GetSystemReqs: > 0, <= limits, idempotent, reservation accepted by a semaphore of the configured size. distinct = distinct history (client, call, arguments, result sequence) / driver trace / (limit setting, request class) tuple; non-trivial = history with at least one Acquire that had to wait or overlapping calls, driver trace with a queued request, every normalisation class.")
+		c.SetRule("(1) concurrent histories: 4-8 client goroutines issue seeded random Acquire/Release/UpdateSize/UpdateActual/UpdateFreeUsed/getter calls on a real core.ResourceSemaphore (max 1..8, requests 0..max+2), resp. Acquire(blocking|nonblocking)/Release/FindDone/Current/Clear plus metadata state writes on a real core.MaxJobsSemaphore (Limit 1..3, 3..6 core.Metadata objects on disk); every call is recorded at the client boundary with call/return stamps from one atomic counter; each history (<= ~60 calls) is checked with porcupine against the sequential counting model, plus client-side over-limit sum, conservation at quiescence and lost wake-up decided from state (QueueLength()>0 with Available()==max; goroutine parked in sync.Cond.Wait with Current()<Limit and nothing runnable). (2) sequential differential driver: one operation at a time, blocking Acquire in a goroutine until QueueLength() shows it queued (resp. the goroutine dump shows it parked), all getters and the set of returned acquirers compared with a FIFO reference after every operation. (3) request normalisation: random limit settings x random requests (zero, negative adaptive, fractional, float32-rounded, tiny, at/over limit, huge) through LocalJobManager.GetSystemReqs / RemoteJobManager.GetSystemReqs: > 0, <= limits, idempotent, reservation accepted by a semaphore of the configured size. (4) end to end: generated pipestances with resource-hungry stages and chunk requests under small --localcores / --localmem: at every instant the reservations (_jobinfo) of jobs whose probe intervals overlap sum to at most the limits; under --jobmode=fake_remote --maxjobs=K at most K jobs overlap, including cases with a saturated --maxjobs=2 where the joins of a mapped splitting stage are slowed to 4.5 s so that they are still running while chunks of other forks wait for a slot; every such pipestance completes. distinct = distinct history (client, call, arguments, result sequence) / driver trace / (limit setting, request class) tuple; non-trivial = history with at least one Acquire that had to wait or overlapping calls, driver trace with a queued request, every normalisation class.")
 		c.Assume("UpdateSize(n) is only called with 0 <= n <= the maximum (as LocalJobManager does with the soft process rlimit); Acquire is only called with n >= 0 and Release only with amounts previously granted")
 		c.Assume("a configured local virtual-memory limit is not below the local memory limit")
 		c.Assume("the wait state \"sync.Cond.Wait\" / \"chan receive\" in runtime.Stack output means the goroutine has not been signalled")
